@@ -158,72 +158,95 @@ def expect(t, state, params, splices, counter=None):
 # --------------------------------------------------------------------------- comparing the real form with the expectation
 
 
-def match(real, exp, g, used, log):
-    """True iff `real` is the form `exp` describes.  g: gensym tag -> symbol name (one symbol per tag), used: names taken
-    by a tag (pairwise distinct).  `log` collects every (tag, name) pair for the freshness check."""
+def match(real, exp):
+    """The gensym assignment {tag: symbol name} under which `real` is the form `exp` describes, or None.
+
+    One symbol per tag, different tags -> different symbols; the search backtracks over the member order of sets and maps,
+    so the answer does not depend on iteration order."""
+    for g in _m(real, exp, {}):
+        return g
+    return None
+
+
+def _m(real, exp, g):
     from basilisp.lang import symbol as sym
     from basilisp.lang.interfaces import IPersistentMap, IPersistentSet, IPersistentVector, ISeq
 
     k = exp[0]
     if k == "sym":
-        return isinstance(real, sym.Symbol) and real.ns == exp[1] and real.name == exp[2]
-    if k == "gensym":
-        if not isinstance(real, sym.Symbol) or real.ns is not None:
-            return False
-        tag = exp[1]
-        if tag in g:
-            return g[tag] == real.name
-        if real.name in used:
-            return False
-        g[tag] = real.name
-        used.add(real.name)
-        log.append((tag, real.name))
-        return True
-    if k == "obj":
-        return real is exp[1]
-    if k == "const":
-        return type(real) is type(exp[1]) and real == exp[1]
-    if k == "list":
+        if isinstance(real, sym.Symbol) and real.ns == exp[1] and real.name == exp[2]:
+            yield g
+    elif k == "gensym":
+        if isinstance(real, sym.Symbol) and real.ns is None:
+            tag = exp[1]
+            if tag in g:
+                if g[tag] == real.name:
+                    yield g
+            elif real.name not in g.values():
+                yield {**g, tag: real.name}
+    elif k == "obj":
+        if real is exp[1]:
+            yield g
+    elif k == "const":
+        if type(real) is type(exp[1]) and real == exp[1]:
+            yield g
+    elif k == "list":
         elems = exp[1]
         if not elems:
-            if exp[2]:
-                # a literally empty list is a list
-                return real is not None and isinstance(real, ISeq) and len(list(real)) == 0
-            # every element came from an empty splice: nil or an empty seq (Clojure gives nil; the property fixes only the elements)
-            return real is None or (isinstance(real, ISeq) and len(list(real)) == 0)
-        if real is None or not isinstance(real, ISeq):
-            return False
-        items = list(real)
-        return len(items) == len(elems) and all(match(r, e, g, used, log) for r, e in zip(items, elems))
-    if k == "vec":
-        if not isinstance(real, IPersistentVector):
-            return False
-        items = list(real)
-        return len(items) == len(exp[1]) and all(match(r, e, g, used, log) for r, e in zip(items, exp[1]))
-    if k == "set":
-        if not isinstance(real, IPersistentSet):
-            return False
-        # a list emptied by splices may be nil (see "list" above) and then coincides with a nil member
-        alts = [exp[1]]
-        if any(e[0] == "list" and not e[1] and not e[2] for e in exp[1]):
-            alts.append([("const", None) if (e[0] == "list" and not e[1] and not e[2]) else e for e in exp[1]])
-        return any(_match_unordered(list(real), _dedup(a), g, used, log) for a in alts)
-    if k == "map":
-        if not isinstance(real, IPersistentMap):
-            return False
-        items = [("pair", kx, vx) for kx, vx in real.items()]
-        for flat in exp[1]:
-            pairs = {}
-            for i in range(0, len(flat), 2):
-                pairs[_ekey(flat[i])] = ("pairexp", flat[i], flat[i + 1])  # later entries win, as with hash-map
-            g2, used2, log2 = dict(g), set(used), list(log)
-            if _match_unordered(items, list(pairs.values()), g2, used2, log2):
-                g.clear(), g.update(g2), used.clear(), used.update(used2)
-                del log[:]
-                log.extend(log2)
-                return True
-        return False
-    raise KeyError(k)
+            empty = real is not None and isinstance(real, ISeq) and len(list(real)) == 0
+            # a literally empty list is a list; a list whose elements all vanished through empty splices may also be nil
+            # (Clojure gives nil there; the property fixes only the inserted elements)
+            if empty or (real is None and not exp[2]):
+                yield g
+        elif real is not None and isinstance(real, ISeq):
+            yield from _ordered(list(real), elems, g)
+    elif k == "vec":
+        if isinstance(real, IPersistentVector):
+            yield from _ordered(list(real), exp[1], g)
+    elif k == "set":
+        if isinstance(real, IPersistentSet):
+            # a list emptied by splices may be nil and then coincides with a nil member
+            alts = [exp[1]]
+            if any(e[0] == "list" and not e[1] and not e[2] for e in exp[1]):
+                alts.append([("const", None) if (e[0] == "list" and not e[1] and not e[2]) else e for e in exp[1]])
+            for a in alts:
+                yield from _unordered(list(real), _dedup(a), g)
+    elif k == "map":
+        if isinstance(real, IPersistentMap):
+            items = [("pair", kx, vx) for kx, vx in real.items()]
+            for flat in exp[1]:
+                pairs = {}
+                for i in range(0, len(flat), 2):
+                    pairs[_ekey(flat[i])] = ("pairexp", flat[i], flat[i + 1])  # later entries win, as with hash-map
+                yield from _unordered(items, list(pairs.values()), g)
+    else:
+        raise KeyError(k)
+
+
+def _ordered(items, exps, g):
+    if len(items) != len(exps):
+        return
+    if not exps:
+        yield g
+        return
+    for g2 in _m(items[0], exps[0], g):
+        yield from _ordered(items[1:], exps[1:], g2)
+
+
+def _unordered(items, exps, g):
+    if len(items) != len(exps):
+        return
+    if not exps:
+        yield g
+        return
+    first, rest = exps[0], exps[1:]
+    for i, it in enumerate(items):
+        if first[0] == "pairexp":
+            gs = (g3 for g2 in _m(it[1], first[1], g) for g3 in _m(it[2], first[2], g2))
+        else:
+            gs = _m(it, first, g)
+        for g2 in gs:
+            yield from _unordered(items[:i] + items[i + 1 :], rest, g2)
 
 
 def _ekey(e):
@@ -242,26 +265,6 @@ def _dedup(elems):
             seen.add(k)
             out.append(e)
     return out
-
-
-def _match_unordered(items, exps, g, used, log):
-    if len(items) != len(exps):
-        return False
-    if not exps:
-        return True
-    first, rest = exps[0], exps[1:]
-    for i, it in enumerate(items):
-        g2, used2, log2 = dict(g), set(used), list(log)
-        if first[0] == "pairexp":
-            ok = match(it[1], first[1], g2, used2, log2) and match(it[2], first[2], g2, used2, log2)
-        else:
-            ok = match(it, first, g2, used2, log2)
-        if ok and _match_unordered(items[:i] + items[i + 1 :], rest, g2, used2, log2):
-            g.clear(), g.update(g2), used.clear(), used.update(used2)
-            del log[:]
-            log.extend(log2)
-            return True
-    return False
 
 
 # --------------------------------------------------------------------------- evaluating the expected form (hygiene check)
@@ -299,9 +302,17 @@ def evaluate(exp, lookup):
             if len(elems) not in (3, 4):
                 raise NotEvaluable("malformed if")
             c = evaluate(elems[1], lookup)
-            if c is not None and c is not False:
-                return evaluate(elems[2], lookup)
-            return evaluate(elems[3], lookup) if len(elems) == 4 else None
+            taken = 2 if (c is not None and c is not False) else 3
+            for i in range(2, len(elems)):
+                if i != taken:
+                    # the branch not taken is compiled too: it must be evaluable code, its value and errors do not matter
+                    try:
+                        evaluate(elems[i], lookup)
+                    except NotEvaluable:
+                        raise
+                    except Exception:  # noqa
+                        pass
+            return evaluate(elems[taken], lookup) if taken < len(elems) else None
         if head[0] != "sym":
             raise NotEvaluable("head is not a symbol")
         f = evaluate(head, lookup)
